@@ -30,7 +30,7 @@ COVERAGE = {}         # line coverage of the files in scope, measured in the wor
 ORACLE_PROCS = 4      # exact-arithmetic oracle (pure python); small on purpose: the machine is shared
 PROOF_FILES = ["theories/Props/C17.v", "theories/Checker/TetMesh.v", "theories/Proofs/TetMeshPoly.v",
                "theories/Proofs/TetMeshCaps.v", "theories/Proofs/TetMeshCurved.v", "theories/Proofs/TetMeshBodyProofs.v",
-               "theories/Proofs/TetMeshBoxCom.v",
+               "theories/Proofs/TetMeshBoxCom.v", "theories/Proofs/TetMeshCylDisj.v",
                "theories/Proofs/TetMeshBase.v", "theories/Proofs/TetMeshSym.v", "theories/Proofs/TetMeshBox.v",
                "theories/Proofs/TetMeshCyl.v", "theories/Proofs/TetMeshIcoKey.v", "theories/Proofs/TetMeshIcoPure.v",
                "theories/Proofs/TetMeshIco.v", "theories/Proofs/TetMeshHelpers.v"]
